@@ -212,10 +212,11 @@ class EnumRNG(np.random.Generator):
             idx = self._choose("choice1", [1.0 / n] * n)
             self._s.picks.append(arr[idx])
             return arr[idx]
-        if replace:
-            raise UnmodelledRandomness("choice(replace=True, size=...)")
         size = int(size)
-        perms = list(itertools.permutations(range(n), size))
+        if replace:
+            perms = list(itertools.product(range(n), repeat=size))
+        else:
+            perms = list(itertools.permutations(range(n), size))
         idx = self._choose("choiceK", [1.0 / len(perms)] * len(perms))
         return arr[list(perms[idx])]
 
